@@ -10,7 +10,8 @@ EFF = {"pa": "print('a')", "pae": "print('a', end='')", "pn": "print()", "pas": 
 HELPER_MOD = "def helper_value():\n    return 41\nLOADED = helper_value() + 1\n"
 EXTRA_FILES = {"helper_mod.py": HELPER_MOD, "bad_mod.py": "y = 2\nraise ValueError('in helper file')\n",
                "exit_mod.py": "import sys\nsys.exit(2)\n", "fn_mod.py": "def boom():\n    raise KeyError('k')\n",
-               "kb_mod.py": "raise KeyboardInterrupt\n"}
+               "kb_mod.py": "raise KeyboardInterrupt\n",
+               "ci_mod.py": "class TwoArgs(Exception):\n    def __init__(self, a, b):\n        super().__init__('two %s %s' % (a, b))\nraise TwoArgs(1, 2)\n"}
 MODE_STMT = {"normal": "pass", "exc": "raise ValueError('boom')", "excBrokenStr": "raise BrokenStr()",
              "excBrokenRepr": "raise BrokenRepr()", "exit": "exit()", "sysexit": "sys.exit(3)",
              "raiseSysExit": "raise SystemExit", "recursion": "rec()", "syntax": "x = (",
@@ -36,6 +37,7 @@ MODE_STMT = {"normal": "pass", "exc": "raise ValueError('boom')", "excBrokenStr"
              # failures inside a second student file reached through import (nested entry point Sandbox._import)
              "x:importRaises": "import bad_mod", "x:importExit": "import exit_mod", "x:importFnRaises": (["import fn_mod", "fn_mod.boom()"], 1),
              "x:fromImport": (["from fn_mod import boom", "boom()"], 1), "baseImport": "import kb_mod",
+             "x:importCustomInit": "import ci_mod", "x:importUse": (["import fn_mod", "fn_mod.boom()"], 1),
              # (lines, index of the line the failure is raised on)
              "reraise": (["try:", "    raise ValueError('boom')", "except ValueError:", "    cleanup = 1", "    raise"], 1),
              "nested": (["helper_raises()"], None)}
@@ -54,7 +56,7 @@ MODE_CLASS = {"exc": "ValueError", "excBrokenStr": "BrokenStr", "excBrokenRepr":
               "x:unicode": "UnicodeEncodeError", "x:memory": "MemoryError", "x:notimpl": "NotImplementedError",
               "x:warn": "Warning", "x:stopasync": "StopAsyncIteration", "x:argsnonstr": "ValueError", "x:tuplekey": "KeyError",
               "x:chained": "ValueError", "x:ctxchained": "NameError", "x:importRaises": "ValueError", "x:importExit": "SystemExit",
-              "x:importFnRaises": "KeyError", "x:fromImport": "KeyError"}
+              "x:importFnRaises": "KeyError", "x:fromImport": "KeyError", "x:importCustomInit": "TwoArgs", "x:importUse": "KeyError"}
 # modes whose failure is raised on the student's own line (location is checked only for these)
 STUDENT_LINE = {"exc", "excBrokenStr", "excBrokenRepr", "raiseSysExit", "sysexit", "x:keyBare", "x:key", "x:zero",
                 "x:name", "x:type", "x:index", "x:attr", "x:assert", "x:bareexc", "x:args2", "x:custominit",
@@ -128,6 +130,8 @@ class Harness:
         self.sandbox = self.report["sandbox"]["sandbox"]
         self.sandbox.allowed_time = 5
         self.threaded = bool(file.get("threaded", False))
+        # nested imports of student files consult the sandbox's own flag, not the per-call argument
+        self.sandbox.threaded = self.threaded
         if file.get("blocked", "none") != "none":
             C.block_module(file["blocked"], report=self.report)
         style = file.get("tracer", "none")
